@@ -241,13 +241,17 @@ Definition c13_pad (region : list D) (pn pe : D) (obs obs_back : list D) : verdi
   | _ => Vboth
   end.
 
-(** nodes of a grid (or scatter) lie inside the requested region (tolerance
-    2^-40 of the region's scale) *)
-Definition c13_nodes_inside (region : list D) (east north : list D) (expect_count : Z) : verdict :=
+(** nodes of a grid (or scatter) lie inside the requested region.  For grids
+    ([exact = true]) the test is the exact closed-box predicate - the same one
+    verde.inside applies: numpy.linspace pins the last node to the bound and
+    the other nodes are at least half a step inside.  For scatter points the
+    tolerance 2^-40 of the region's scale covers the one rounding of
+    lower + (upper - lower) * u. *)
+Definition c13_nodes_inside (region : list D) (east north : list D) (expect_count : Z) (exact : bool) : verdict :=
   match Qs region with
   | [w; e; s; n] =>
       let sc := region_scale (Qs region) in
-      let t := tol40 * sc in
+      let t := if exact then 0 else tol40 * sc in
       let ok := forallb (fun x => Qleb (w - t) x && Qleb x (e + t)) (Qs east) &&
                 forallb (fun y => Qleb (s - t) y && Qleb y (n + t)) (Qs north) &&
                 (Z.of_nat (length east) =? expect_count)%Z && (Z.of_nat (length north) =? expect_count)%Z in
@@ -269,8 +273,15 @@ Definition dmin_list (l : list D) : option D :=
 Definition dmax_list (l : list D) : option D :=
   match l with [] => None | x :: t => Some (fold_left (fun m y => if dle m y then y else m) t x) end.
 
+(** project_region.  [agree]: the function projected the 101-node grid lines
+    of the region (the harness logs the projection's inputs/outputs) and
+    returned the tight box of what the projection returned.  [holds]: the
+    result is the bounding box of the projected region, i.e. of the projection
+    applied (independently, by the harness) to the 101 x 101 nodes of the
+    region, within 2^-40 of the scale of the projected values (element-wise
+    numpy functions may differ in the last place between call shapes). *)
 Definition c13_project_region (region : list D) (in_east in_north : list D) (out_east out_north : list D)
-    (obs : list D) : verdict :=
+    (oracle_box : list D) (obs : list D) : verdict :=
   match Qs region, obs with
   | [w; e; s; n], [ow; oe; os; on] =>
       let sc := region_scale (Qs region) in
@@ -280,7 +291,8 @@ Definition c13_project_region (region : list D) (in_east in_north : list D) (out
         | Some a, Some b, Some c, Some d => deq a ow && deq b oe && deq c os && deq d on
         | _, _, _, _ => false
         end in
-      mk_verdict (nodes_ok && box) (nodes_ok && box)
+      let psc := Qmax 1 (maxabs_list (Qs oracle_box)) in
+      mk_verdict (nodes_ok && box) (close_list psc (Qs oracle_box) (Qs obs))
   | _, _ => Vboth
   end.
 
